@@ -261,7 +261,7 @@ pub fn check_front(fc: &FileCtx, o: &Opts, front: &str, variant: u64, exp_rows: 
     };
     match r {
         Ok(Ok(())) => Ok(()),
-        Ok(Err((fp, msg))) => Err((map_fp(fp), msg)),
+        Ok(Err((fp, msg))) => Err((map_fp(fp), msg.replace("sync reader", "reference model"))),
         Err(p) => Err((format!("c06:{front}:{}", p.fingerprint()), format!("{p:?}"))),
     }
 }
